@@ -261,6 +261,11 @@ impl RADAU {
             }));
         }
         h = h.clamp(-hmax, hmax);
+        // The very first step may already reach xend: land on it and finish after it
+        let first_is_last = (x + h - xend) * posneg >= 0.0;
+        if first_is_last {
+            h = xend - x;
+        }
 
         // --- Declarations ---
 
@@ -295,7 +300,7 @@ impl RADAU {
         let mut hold = h;
         let mut hnew: Float;
         let mut hhfac: Float = h;
-        let mut last = false;
+        let mut last = first_is_last;
         let mut reject = false;
         let mut h_acc: Float = 0.0;
         let mut err_acc: Float = 0.0;
